@@ -338,6 +338,7 @@ class ConvexPolygon(GeoBody):
                 "ConvexPolygon",
                 round(self._get_point_hash_sum(), SIG_FIGURES - 5),
                 hash(self.plane),
+                hash(self.plane.n),
             )
         )
 
